@@ -590,6 +590,27 @@ fn run_frag(bops: &[BOp], fc: Option<FragmentConfig>, ops: &[Vec<String>], out: 
     }
 }
 
+struct Trickle {
+    data: Vec<u8>,
+    max: usize,
+    intr: bool,
+    tick: u64,
+}
+impl Write for Trickle {
+    fn write(&mut self, buf: &[u8]) -> io::Result<usize> {
+        self.tick += 1;
+        if self.intr && self.tick % 2 == 1 {
+            return Err(io::Error::new(io::ErrorKind::Interrupted, "interrupted"));
+        }
+        let k = std::cmp::min(self.max, buf.len());
+        self.data.extend_from_slice(&buf[..k]);
+        Ok(k)
+    }
+    fn flush(&mut self) -> io::Result<()> {
+        Ok(())
+    }
+}
+
 /// Alternative sink types for C17: the same history must give the same bytes on any `W: Write`.
 fn run_mux_alt_sinks(bops: &[BOp], ops: &[Vec<String>], out: &mut String) {
     use std::io::Cursor;
@@ -615,6 +636,13 @@ fn run_mux_alt_sinks(bops: &[BOp], ops: &[Vec<String>], out: &mut String) {
     {
         let bw = std::io::BufWriter::with_capacity(7, &mut inner);
         r4 = run_history(apply_bops(MuxerBuilder::new(bw), bops).build(), ops);
+    }
+    // sinks that accept at most n bytes per write() call (legal short writes), one of them also
+    // returning Interrupted before every other write
+    for (n, intr) in [(1usize, false), (7, false), (4096, false), (3, true)] {
+        let mut t = Trickle { data: Vec::new(), max: n, intr, tick: 0 };
+        let r = run_history(apply_bops(MuxerBuilder::new(&mut t), bops).build(), ops);
+        out.push_str(&format!("alt trickle{}{} {} {}\n", n, if intr { "i" } else { "" }, r, hex_of_bytes(&t.data)));
     }
     out.push_str(&format!("alt vec {} {}\n", r1, hex_of_bytes(&v)));
     out.push_str(&format!("alt cursor {} {}\n", r2, hex_of_bytes(c.get_ref())));
